@@ -34,7 +34,8 @@ Definition c22_case (g : grammar) (c : config) (tbl tbl' : list ((nat * nat) * n
   show_bool (ins_wf g c ins) ++
   show_bool (shift_okb g (a ++ b)%list (orc_of tbl) (a ++ ins ++ b)%list (orc_of tbl') (List.length a) (List.length ins)) ++
   show_bool (cmt_wf g c) ++
-  show_bool (cmt_ins_okb g c (orc_of tbl') a w1 cc w2).
+  show_bool (cmt_ins_okb g c (orc_of tbl') a w1 cc w2) ++
+  show_bool (top_eof g).
 """
 FUEL = 120
 DEFAULT_WS = "\t\n\r "
@@ -90,6 +91,35 @@ def shift_ok(dump, text, table, text2, table2, k, n):
             if b is not None and not (p + b <= len(text) and (p >= k or p + b <= k)):
                 return False
     return True
+
+
+def tiled(dump, text, table):
+    """Mirror of PegGap.covered 0 |text|: the text is a concatenation of characters of the grammar's whitespace
+    sets and of matches of its terminals."""
+    tbl = {(o, p): ln for o, p, ln in table}
+    W = set(dump["ws"])
+    for nd in dump["nodes"]:
+        if nd["ws"] is not None:
+            W |= set(nd["ws"])
+    terms = [nd for nd in dump["nodes"] if nd["kind"] in ("KStr", "KRegex", "KEOF")]
+    reach = [False] * (len(text) + 1)
+    reach[0] = True
+    for p in range(len(text)):
+        if not reach[p]:
+            continue
+        if text[p] in W:
+            reach[p + 1] = True
+        for nd in terms:
+            ln = _tmatch(nd, text, tbl, p)
+            if ln and p + ln <= len(text):
+                reach[p + ln] = True
+    return reach[len(text)]
+
+
+def ctx_constant(dump):
+    """Mirror of PegProofs.ctx_constant (C19's class)."""
+    return dump["comments"] is None and all(nd["ws"] is None and nd["skipws"] is None and not nd["eolterm"]
+                                            and nd["kind"] != "KUnord" for nd in dump["nodes"])
 
 
 def mode_constant(dump):
@@ -291,7 +321,7 @@ def model_equiv_impl(m, t):
 
 def run(chk):
     chk.prove([])
-    n, per, mx = (420, 6, 8) if chk.thorough else (90, 6, 6)
+    n, per, mx = (420, 6, 8) if chk.thorough else (75, 6, 6)
     cases = gen_cases(chk, n, per)
     idx = [list(range(i, len(cases), core.NPROC)) for i in range(core.NPROC)]
     idx = [ix for ix in idx if ix]
@@ -355,6 +385,12 @@ def run(chk):
                 chk.count(json.dumps([case["grammar"], case["opts"], text]), nontrivial=False)
                 continue
             # ---- oracle (2): only the declared active set (and comments) is skipped
+            # ---- oracle (4), the conclusion of C22_accepted_is_tiled on the implementation
+            if d["comments"] is None and not tiled(d, text, run_["table"]):
+                failures.append({"case": dict(ginfo, input=text), "tags": [], "impl": t0,
+                                 "what": "accepted input is not a concatenation of whitespace-set characters and terminal matches"})
+            elif d["comments"] is None:
+                chk.stat("theorem C22_accepted_is_tiled applies (no Comment rule)")
             for what, tags in gap_oracle(case, run_, d):
                 failures.append({"case": dict(ginfo, input=text), "what": what, "tags": tags, "impl": t0})
             if not run_.get("muts"):
@@ -381,6 +417,8 @@ def run(chk):
                     mo, mm_, flags = parts[0], parts[1], parts[2]
                     wf, sok = flags[0] == "T", flags[1] == "T"
                     cwf, cok = flags[2] == "T", flags[3] == "T"
+                    if flags[4] != "T":
+                        disagreements.append({"case": cinfo, "impl": "textX wraps the root rule in Sequence(rule, EOF)", "model": "top_eof = false"})
                     if not (model_equiv_impl(mo, t0) and model_equiv_impl(mm_, t1)):
                         disagreements.append({"case": cinfo, "impl": [t0, t1], "model": [mo, mm_]})
                     if kind == "ws" and wf != ins_wf(d, ins):
@@ -407,6 +445,12 @@ def run(chk):
                         chk.stat("outside ins_wf")
                 if t1.startswith("P:") and not m1["ok"] and m1["err"] == "syntax" or (t1.startswith("E:") and m1["ok"]):
                     disagreements.append({"case": cinfo, "impl": [t1, m1], "model": "textX-level and Arpeggio-level acceptance differ"})
+                # ---- memoization on (C22_invariant_memo_partial): same statement with the packrat cache
+                if kind == "ws" and thm_applies and ctx_constant(d) and not t0.startswith("X:"):
+                    chk.stat("theorem C22_invariant_memo applies (ctx_constant)")
+                    if m.get("tree_on") != shift_tree_str(run_.get("tree_on", ""), k, n_ins):
+                        failures.append({"case": cinfo, "tags": [], "impl": [run_.get("tree_on"), m.get("tree_on")],
+                                         "what": "with memoization=True the insertion changes the outcome"})
                 # ---- oracle (1): same acceptance, same model, same tree up to the shift
                 bad = None
                 if not t1.startswith("P:"):
